@@ -44,6 +44,9 @@ CHECKS = {
  "C13": ("exhaustive enumeration of all pairs (s,z) from an interior-point lattice (3 directions x boundary distances {1,1e-2,1e-4,1e-8} x magnitudes {1,1e-6,1e6}) for NN(1,3), SOC(2..6) on both sides of the sparse-expansion threshold and PSD(1..3) [thorough adds NN6, SOC9, SOC17, PSD4], driving the real cone objects; every identity of the property checked on all basis vectors and two dense vectors",
          "For every lattice pair the real update_scaling/mul_W/mul_Winv/mul_Hs/get_Hs/circ_op/lambda_inv_circ_op/affine_ds/combined_ds_shift/ds_from_dz_offset are executed and compared with the identities W z = W^-T s = lambda, W'W z = s, W^-1 W = I, <Wx,y> = <x,W'y>, block == operator (dense, diagonal and D+uu'-vv' sparse form), and the textbook Jordan algebra written independently in the harness.",
          "relative tolerance 2e-12 amplified by the known conditioning 1/(sqrt(ds dz) sqrt(min(ds,dz))) of the lattice point; PSD on the harness BLAS shims", "DESIGN.md §5 C13"),
+ "C15": ("exhaustive enumeration over the real cone objects of every (interior point, direction, direction magnitude, alpha_max[, backtracking settings]) combination of a lattice: NN/SOC/PSD (exact-distance oracle by bisection on independent margins), Exp/Pow/GenPow (backtracking-trial oracle), composite cones (safety, cap, one-factor tightness), plus margins/scaled_unit_shift/shift-to-interior on arbitrary vectors",
+         "Each returned step length is taken and the resulting point judged by textbook membership; it must not exceed alpha_max (nor max_step_fraction for composite cones with nonsymmetric members); for symmetric cones it must equal the exact distance to the boundary found independently (to 1e-7/sqrt(delta)); for nonsymmetric cones it must be a backtracking trial whose predecessor was outside; initialisation shifts must land strictly inside.",
+         "directions: zero, radial out/in, dense, boundary-grazing, tangent, +-basis, x magnitudes {1e-3,1,1e3}; PSD via harness BLAS shims; the composite oracle is order-agnostic because the property does not fix the member order (see DESIGN.md note on the inverted symmetric/nonsymmetric pass order)", "DESIGN.md §5 C15"),
  "C16": ("bounded-exhaustive enumeration of all small matrices / triplet sequences / raw CSC encodings / block tuples on the real CscMatrix code, dense reference oracle",
          "Every public CscMatrix operation is executed on every matrix up to 3x3 over {-1,0,1,2} and 4x3 over {-1,0,1} (thorough: {-1,0,1,2}), every triplet sequence up to length 4 (5) on a 3x3 grid, every raw encoding (n<=2, nnz<=3; thorough n<=3, nnz<=4) and every pair/quad of small blocks; results compared exactly with a dense reference and an independent canonical-form predicate. This is the bound the property itself names.",
          "dense reference + canonical predicate in mc/src/dense.rs are trusted; integer data so comparisons are exact; larger random shapes only as a labelled sampling supplement",
